@@ -22,6 +22,7 @@ import (
 	minjs "github.com/tdewolff/minify/v2/js"
 	minsvg "github.com/tdewolff/minify/v2/svg"
 	minxml "github.com/tdewolff/minify/v2/xml"
+	"github.com/tdewolff/parse/v2"
 	pxml "github.com/tdewolff/parse/v2/xml"
 
 	"verifharness/h"
@@ -648,7 +649,6 @@ func c09XmlHasBareAmp(s string) bool {
 }
 
 var c09XmlCDataRe = regexp.MustCompile(`(?s)<!\[CDATA\[(.*?)\]\]>`)
-var c09XmlGtRefRe = regexp.MustCompile(`&gt;|&#0*62;|&#x0*3[eE];`)
 var c09XmlCssM = c09XmlDefaultM()
 
 func c09XmlCssMin(css string, inline bool) string {
@@ -681,7 +681,9 @@ func c09XmlKnown(doc []byte) string {
 			}
 			continue
 		}
-		css := c09XmlCssMin(c09XmlGtRefRe.ReplaceAllString(content, ">"), false)
+		// the same preprocessing as the TextToken branch of svg.go
+		pre := parse.TrimWhitespace(parse.ReplaceMultipleWhitespaceAndEntities([]byte(content), minxml.EntitiesMap, minxml.TextRevEntitiesMap))
+		css := c09XmlCssMin(string(pre), false)
 		if strings.Contains(css, "]]>") && !strings.Contains(content, "]]>") {
 			return "K-C09-Xml-2"
 		}
@@ -690,8 +692,15 @@ func c09XmlKnown(doc []byte) string {
 		}
 	}
 	for _, m := range c09XmlStyleAttrRe.FindAllSubmatch(doc, -1) {
-		v := string(m[1][1 : len(m[1])-1])
-		if c09XmlHasBareAmp(c09XmlCssMin(v, true)) {
+		// the same preprocessing as svg/buffer.go (the lexer has replaced TAB, LF, CR by spaces before)
+		v := bytes.Map(func(r rune) rune {
+			if r == '\t' || r == '\n' || r == '\r' {
+				return ' '
+			}
+			return r
+		}, append([]byte(nil), m[1][1:len(m[1])-1]...))
+		v = parse.TrimWhitespace(parse.ReplaceMultipleWhitespaceAndEntities(v, minxml.EntitiesMap, minxml.AttrRevEntitiesMap))
+		if c09XmlHasBareAmp(c09XmlCssMin(string(v), true)) {
 			return "K-C09-Xml-3"
 		}
 	}
